@@ -23,6 +23,7 @@ func registerIntrinsics(in *Interp) {
 	registerZZ(in)
 	registerFmt(in)
 	registerStd(in)
+	registerFS(in)
 }
 
 // makeError builds an error value carrying msg (an *errors.errorString).
